@@ -18,7 +18,7 @@ import time
 
 ROOT = os.path.dirname(os.path.dirname(os.path.abspath(__file__)))
 REPO = os.environ.get("PCFG_REPO", "/repo")
-COQ = os.path.join(ROOT, "coq")
+COQ = os.environ.get("PCFG_COQ", os.path.join(ROOT, "coq"))
 PY = "/venv/bin/python"
 NCPU = os.cpu_count() or 4
 
